@@ -186,7 +186,10 @@ def work(pid, tier, seed, shard, nshards, outpath):
     # ---- generated part
     total = int(os.environ.get("VERIF_EXAMPLES_OVERRIDE", cfg.get("examples", 0)))
     n = total // nshards + (1 if shard < total % nshards else 0)
-    state = {"first_key": None, "fail_start": None, "expired": False, "best": None}
+    state = {"first_key": None, "fail_start": None, "expired": False, "best": None, "calls": 0}
+    # Hypothesis always starts with the all-minimal example; running it in every shard would waste 1/n of a small budget
+    # on 16 copies of the same case, so only shard 0 executes it
+    skip_first = shard > 0 and n > 0
 
     class ViolationFound(Exception):
         pass
@@ -195,7 +198,7 @@ def work(pid, tier, seed, shard, nshards, outpath):
 
         @hypothesis.seed(derive_seed(seed, pid, shard))
         @settings(
-            max_examples=n,
+            max_examples=n + (1 if skip_first else 0),
             database=None,
             deadline=None,
             derandomize=False,
@@ -207,6 +210,10 @@ def work(pid, tier, seed, shard, nshards, outpath):
         @given(st.data())
         def test(data):
             if state["expired"]:
+                return
+            state["calls"] += 1
+            if skip_first and state["calls"] == 1:
+                mod.draw_case(data, tier)
                 return
             now = time.monotonic()
             if state["fail_start"] is not None and now - state["fail_start"] > shrink_budget:
